@@ -16,3 +16,4 @@ pub broadcast proof fn axiom_str_len_bound(s: &str)
 {
 }
 
+
